@@ -73,6 +73,42 @@ def h_real_interval(E, form):
     return 'ok'
 
 
+DEGENERATE = [-0.9, 10.1, 7 / 3, 0.1, 3.0, 1e-7, -123456.789, 2 ** 0.5, 1 / 3, 5e-324]
+
+
+def h_degenerate_interval(E, idx):
+    """concrete companion in doubles: an interval whose two ends are the same number contains exactly that number - every draw (a fine grid of RNG
+    outcomes) returns it, also for ends that are not dyadic; same for the rectangle built from two such intervals"""
+    import mitxgraders.sampling as S
+    from mitxgraders import RealInterval, ComplexRectangle
+    a = DEGENERATE[idx]
+
+    class Grid:
+        def __init__(self):
+            self.k = 0
+
+        def random_sample(self, size=None):
+            self.k += 1
+            return ((self.k * 2654435761) % 4096) / 4096.0
+
+        def uniform(self, low=0.0, high=1.0, size=None):
+            return low + (high - low) * self.random_sample()
+
+    class P:
+        random = Grid()
+
+        def __getattr__(self, n):
+            return getattr(np, n)
+    with shadow(S, np=P()):
+        s = RealInterval([a, a])
+        draws = [s.gen_sample() for _ in range(400)]
+        r = ComplexRectangle(re=[a, a], im=[-a, -a])
+        zs = [r.gen_sample() for _ in range(50)]
+    E.check('real-draw-in-interval-any-order', all(d == a for d in draws))
+    E.check('complex-draw-in-rectangle', all(z.real == a and z.imag == -a for z in zs))
+    return 'ok'
+
+
 def h_int_range(E):
     from mitxgraders import IntegerRange
     a, b = E.int('start', -4, 4), E.int('stop', -4, 4)
@@ -573,6 +609,8 @@ def harnesses(tier):
     for form in ('list', 'kwargs'):
         add(h_real_interval, 'real_interval', dict(form=form), 'ends any reals in [-6,6], any order, degenerate allowed')
     add(h_int_range, 'int_range', {}, 'ends any integers in [-4,4], any order')
+    for i in range(len(DEGENERATE)):
+        add(h_degenerate_interval, 'degenerate_interval', dict(i=i), 'both ends %r, 400 RNG outcomes' % DEGENERATE[i], validate=False)
     add(h_square_rules, 'square_rules', {}, '6 symmetries x traceless x determinant None/0/1 x dimension 2..5 x complex', validate=False)
     add(h_complex_rect, 'complex_rect', {}, 'ends any reals in [-6,6]')
     add(h_complex_sector, 'complex_sector', {}, 'modulus ends in [0,6], argument ends in [-3,3]')
